@@ -793,6 +793,61 @@ pub fn run_c12(rep: &mut Report) {
             }
         }
     }
+    // ---- the same through the public API (EventDecoder<AnyLayout>): a character that layout B types with exactly one key and
+    //      level must still be typed by that key after the keyboard was switched to B from layout A – also when that very key
+    //      and level was the last thing used on A, and whatever the number n of change_layout calls made on the way
+    {
+        let level_keys: [(u16, Option<KeyCode>); 3] = [(0, None), (B_LSHIFT, Some(KeyCode::LShift)), (B_RALT, Some(KeyCode::RAltGr))];
+        let plain: Vec<(usize, KeyCode)> = cube.keys.iter().copied().enumerate().filter(|(_, k)| !MOD_KEYS.contains(k)).collect();
+        let mut probes = 0u64;
+        let special_b = (rep.seed as usize) % 10;
+        for b in 0..10usize {
+            // characters of B with a single witness (key, level)
+            let mut wit: BTreeMap<char, Vec<(KeyCode, usize)>> = BTreeMap::new();
+            for (ki, key) in plain.iter() {
+                for (lv, (m, _)) in level_keys.iter().enumerate() {
+                    if let Some(c) = enc_char(cube.get(b, 0, *ki, 1, B_NUMLOCK | m)) {
+                        if (' '..='~').contains(&c) && cube.get(b, 0, *ki, 0, B_NUMLOCK | m) == c as u32 {
+                            wit.entry(c).or_default().push((*key, lv));
+                        }
+                    }
+                }
+            }
+            let single: Vec<(char, KeyCode, usize)> = wit.iter().filter(|(_, v)| v.len() == 1).map(|(c, v)| (*c, v[0].0, v[0].1)).collect();
+            for a in 0..10usize {
+                let ns: &[usize] = if a == 0 && b == special_b { &[1, 2, 255, 256, 257, 512, 65_536] } else { &[1, 256] };
+                for n in ns {
+                    for (c, key, lv) in single.iter() {
+                        let r = guarded(|| {
+                            let mut dec = EventDecoder::new(any_value(a), HandleControl::Ignore);
+                            if let Some(mk) = level_keys[*lv].1 {
+                                let _ = dec.process_keyevent(KeyEvent::new(mk, KeyState::Down));
+                            }
+                            let _ = dec.process_keyevent(KeyEvent::new(*key, KeyState::Down));
+                            for i in 0..*n {
+                                dec.change_layout(any_value(if i + 1 == *n { b } else { (a + i) % 10 }));
+                            }
+                            dec.process_keyevent(KeyEvent::new(*key, KeyState::Down))
+                        });
+                        probes += 1;
+                        rep.evaluations += 1;
+                        let Ok(got) = r else { continue }; // a panic is C08's matter
+                        if got != Some(DecodedKey::Unicode(*c)) {
+                            rep.violate(
+                                format!("C12|via-decoder|{}|after-switching-from={}|missing=U+{:04X}", layout_name(b), layout_name(a), *c as u32),
+                                format!(
+                                    "EventDecoder<AnyLayout>: {} types '{}' (U+{:04X}) only with {:?} at the {} level; after that key and level were used on {} and {} change_layout call(s) ended on {}, the key types {} – the character can no longer be typed",
+                                    layout_name(b), c, *c as u32, key, ["unshifted", "shifted", "AltGr"][*lv], layout_name(a), n, layout_name(b), odk_str(&got)
+                                ),
+                                J::obj().with("kind", J::s("ascii-after-switch")).with("from", J::s(layout_name(a))).with("to", J::s(layout_name(b))).with("switches", J::u(*n as u64)).with("char", J::u(*c as u64)).with("key", J::s(kname(*key))),
+                            );
+                        }
+                    }
+                }
+            }
+        }
+        rep.count("single_witness_characters_typed_after_layout_switches", probes);
+    }
     rep.count("ascii_characters_with_a_witness_key", witnesses);
     rep.distinct_nontrivial = witnesses;
     rep.exhaustive = Some(true);
